@@ -1,6 +1,8 @@
 import KpModel.Db.MergeLemmas
 import KpModel.Db.MergeInv
 import KpModel.Db.MergeSpec
+import KpModel.Db.MergeDel
+import KpModel.Db.MergeDelG
 /-!
 # C15 — merge honours deletions exactly when they are newer, and never resurrects
 Property theorems only.  Proved for all inputs: the destination's tombstone list only grows (it stays a
@@ -161,5 +163,78 @@ theorem C15_no_node_present_and_tombstoned (now : Int) (dst src d' : Db) (evs : 
     (hn : (uuidsL dst.root.children).Nodup) (hc : ∀ u ∈ uuidsL dst.root.children, tombsContain dst.tombs u = false)
     (h : merge now dst src = .ok (d', evs)) : ∀ u ∈ uuidsL d'.root.children, tombsContain d'.tombs u = false :=
   merge_clean now dst src d' evs ⟨hr, hn⟩ hc h
+
+/-- **C15 (an entry's deletion is honoured exactly when it is newer)**: the destination holds an entry, has no tombstone for it,
+    and the source's tree no longer holds it.  Then `merge` removes the entry and records a tombstone for it if one of the
+    source's tombstones for it is later than the entry's last modification in the destination (a missing time counts as `now`);
+    and if none is, the entry stays and no tombstone for it is recorded — whatever else the merge does (the group passes leave
+    the entry's modification time alone, the group deletion pass removes empty groups only).  For every destination that is a
+    group with pairwise distinct UUIDs below it and a root UUID of its own, and every source whose root is a group. -/
+theorem C15_entry_deleted_iff_newer (now : Int) (dst src d' : Db) (evs : List Event)
+    (hr : dst.root.isGroup = true) (hn : (uuidsL dst.root.children).Nodup) (hfd : dst.root.uuid ∉ uuidsL dst.root.children)
+    (hsg : src.root.isGroup = true) (h : merge now dst src = .ok (d', evs))
+    (pd : List Nat) (de : Entry) (hd : findEntry dst.root pd = some de)
+    (hsrc : de.d.uuid ∉ uuidsL src.root.children) (hnt : tombsContain dst.tombs de.d.uuid = false) :
+    ((∃ d ∈ src.tombs, d.uuid = de.d.uuid ∧ de.d.times.mtime.getD now < d.time) →
+        de.d.uuid ∉ uuidsL d'.root.children ∧ tombsContain d'.tombs de.d.uuid = true)
+    ∧ ((∀ d ∈ src.tombs, d.uuid = de.d.uuid → ¬ (de.d.times.mtime.getD now < d.time)) →
+        de.d.uuid ∈ uuidsL d'.root.children ∧ tombsContain d'.tombs de.d.uuid = false) :=
+  merge_entry_deletion now dst src d' evs ⟨hr, hn⟩ hfd hsg h pd de hd hsrc hnt
+
+/-- **C15 (what nobody deleted stays)**: a node of the destination that neither replica has a tombstone for is below the root of
+    the result — the result's tombstones all come from the two lists (`tombstones_monotone`), and a node of the destination is in
+    the result or tombstoned there (`merge_keeps`). -/
+theorem C15_untombstoned_node_stays (now : Int) (dst src d' : Db) (evs : List Event) (hr : dst.root.isGroup = true)
+    (hn : (uuidsL dst.root.children).Nodup) (h : merge now dst src = .ok (d', evs)) (u : Nat)
+    (hu : u ∈ uuidsL dst.root.children) (hd : tombsContain dst.tombs u = false) (hs : tombsContain src.tombs u = false) :
+    u ∈ uuidsL d'.root.children ∧ tombsContain d'.tombs u = false := by
+  obtain ⟨add, hadd, hfrom⟩ := tombstones_monotone now dst src d' evs h
+  have hno : tombsContain d'.tombs u = false := by
+    rw [hadd, tombsContain_append, hd, Bool.false_or]
+    cases hc : tombsContain add u with
+    | false => rfl
+    | true =>
+      unfold tombsContain at hc hs
+      obtain ⟨t, ht, htu⟩ := List.any_eq_true.mp hc
+      have : src.tombs.any (·.uuid == u) = true := List.any_eq_true.mpr ⟨t, hfrom t ht, htu⟩
+      rw [this] at hs; cases hs
+  rcases merge_keeps now dst src d' evs ⟨hr, hn⟩ h u hu with h1 | h1
+  · exact ⟨h1, hno⟩
+  · rw [hno] at h1; cases h1
+
+/-- the premises of `C15_entry_deleted_iff_newer` are met by a non-trivial pair, in both directions -/
+def exDelDst : Db := ⟨.group 1 0 ⟨some 5, none, 0⟩ [.group 2 0 ⟨some 5, none, 0⟩ [.entry ⟨⟨10, 7, ⟨some 20, none, 0⟩⟩, some []⟩]], []⟩
+def exDelSrcNewer : Db := ⟨.group 1 0 ⟨some 5, none, 0⟩ [.group 2 0 ⟨some 5, none, 0⟩ []], [⟨10, 25⟩]⟩
+def exDelSrcOlder : Db := ⟨.group 1 0 ⟨some 5, none, 0⟩ [.group 2 0 ⟨some 5, none, 0⟩ []], [⟨10, 15⟩]⟩
+set_option linter.unusedSimpArgs false in
+set_option maxRecDepth 4000 in
+example : merge 100 exDelDst exDelSrcNewer
+    = .ok (⟨.group 1 0 ⟨some 5, none, 0⟩ [.group 2 0 ⟨some 5, none, 0⟩ []], [⟨10, 25⟩]⟩, [(.entryDeleted, 10)])
+    ∧ merge 100 exDelDst exDelSrcOlder = .ok (⟨exDelDst.root, []⟩, []) := by
+  constructor <;>
+  simp [merge, exDelDst, exDelSrcNewer, exDelSrcOlder, mergeRoot, groupMergeData, groupCount, groupCountL, mergePasses, mergeGroup, mergeEntries,
+    mergeSubgroups, findLoc, findLocL, findLocG, findEntry, findGroup, getPath, updatePath, updFirst, removeNode, St.ev,
+    mergeDeletions, deleteEntries, deleteGroups, deletionFuel, tombsContain, Node.children, Node.uuid, Node.isGroup, Node.setChildren,
+    bind, Except.bind, pure, Except.pure]
+example : findEntry exDelDst.root [2, 10] = some ⟨⟨10, 7, ⟨some 20, none, 0⟩⟩, some []⟩ := by
+  simp [findEntry, getPath, exDelDst, Node.children, Node.uuid, Node.isGroup]
+example : (uuidsL exDelDst.root.children).Nodup ∧ exDelDst.root.uuid ∉ uuidsL exDelDst.root.children
+    ∧ (10 : Nat) ∉ uuidsL exDelSrcNewer.root.children := by decide
+
+/-- **C15 (a group is kept unless a tombstone for it is newer)**: the destination holds a group below its root, has no tombstone
+    for it, and the source's tree no longer holds it.  When none of the source's tombstones for it is later than the group's last
+    modification in the destination, the group is in the result and no tombstone for it is recorded (the group passes leave the
+    modification time of a group the source does not hold alone; the entry pass removes entries only; the group pass removes a
+    group only under a tombstone later than its modification time).  The converse direction for groups also needs the group to be
+    empty once its own deleted children are gone; it is validated by the reference clauses, not proved. -/
+theorem C15_group_kept_unless_newer (now : Int) (dst src d' : Db) (evs : List Event)
+    (hr : dst.root.isGroup = true) (hn : (uuidsL dst.root.children).Nodup) (hfd : dst.root.uuid ∉ uuidsL dst.root.children)
+    (hsg : src.root.isGroup = true) (h : merge now dst src = .ok (d', evs))
+    (pd : List Nat) (hpd : pd ≠ []) (u c : Nat) (t : Times) (ch : List Node)
+    (hd : getPath dst.root pd = some (.group u c t ch))
+    (hsrc : u ∉ uuidsL src.root.children) (hsr : src.root.uuid ≠ u) (hnt : tombsContain dst.tombs u = false)
+    (hall : ∀ d ∈ src.tombs, d.uuid = u → ¬ (t.mtime.getD now < d.time)) :
+    u ∈ uuidsL d'.root.children ∧ tombsContain d'.tombs u = false :=
+  merge_group_kept now dst src d' evs ⟨hr, hn⟩ hfd hsg h pd hpd u c t ch hd hsrc hsr hnt hall
 
 end Kp.Merge
